@@ -30,6 +30,7 @@ type SpecEnv struct {
 	pos     token.Pos
 	nq      int
 	where   string
+	assuming bool // the formula being built will be assumed (not proved)
 }
 
 var ghostMapTypes = map[*types.Map]bool{}
@@ -626,6 +627,29 @@ func (env *SpecEnv) evalCall(st, old *State, x *ast.CallExpr) Val {
 	case "isnil":
 		v := arg(0)
 		return Val{c.isNil(v), boolT}
+	case "fresh":
+		// allocated by the call: not allocated in the pre-state, non-nil
+		v := arg(0)
+		if old == nil {
+			env.errf("fresh() without pre-state")
+			return Val{True, boolT}
+		}
+		al0 := u.heapGet(old, "$alloc", ArraySort(SInt, SBool))
+		return Val{And(Ne(v.T, IntLit(0)), Not(Select(al0, v.T))), boolT}
+	case "allocated":
+		v := arg(0)
+		al := u.heapGet(st, "$alloc", ArraySort(SInt, SBool))
+		return Val{Select(al, v.T), boolT}
+	case "arr":
+		// the element array of a slice, as a total map int -> elem
+		v := arg(0)
+		if sl, ok := unalias(v.Ty).Underlying().(*types.Slice); ok {
+			m := types.NewMap(types.Typ[types.Int], sl.Elem())
+			ghostMapTypes[m] = true
+			return Val{slArr(v.T), m}
+		}
+		env.errf("arr() of non-slice")
+		return Val{u.fresh("specerr", SInt), types.Typ[types.Int]}
 	case "has":
 		m, k := arg(0), arg(1)
 		mt, ok := unalias(m.Ty).Underlying().(*types.Map)
@@ -658,17 +682,23 @@ func (env *SpecEnv) evalCall(st, old *State, x *ast.CallExpr) Val {
 		q := env.freshQVar(id.Name, SInt)
 		saved, had := env.binds[id.Name]
 		env.binds[id.Name] = Val{q, types.Typ[types.Int]}
+		mark := len(st.assume)
 		body := env.eval(st, old, x.Args[3])
+		side := takeSide(st, mark, q)
 		if had {
 			env.binds[id.Name] = saved
 		} else {
 			delete(env.binds, id.Name)
 		}
 		rng := And(Le(lo.T, q), Lt(q, hi.T))
-		if name == "all" {
-			return Val{Forall([]*Term{q}, Imp(rng, body.T)), boolT}
+		if env.assuming && !isTrue(side) {
+			st.assumeT(Forall([]*Term{q}, side))
+			side = True
 		}
-		return Val{Exists([]*Term{q}, And(rng, body.T)), boolT}
+		if name == "all" {
+			return Val{Forall([]*Term{q}, Imp(And(rng, side), body.T)), boolT}
+		}
+		return Val{Exists([]*Term{q}, And(rng, side, body.T)), boolT}
 	case "allT", "exT":
 		id, ok := x.Args[0].(*ast.Ident)
 		if !ok || len(x.Args) != 3 {
@@ -682,16 +712,22 @@ func (env *SpecEnv) evalCall(st, old *State, x *ast.CallExpr) Val {
 		q := env.freshQVar(id.Name, tm.SortOf(t))
 		saved, had := env.binds[id.Name]
 		env.binds[id.Name] = Val{q, t}
+		mark := len(st.assume)
 		body := env.eval(st, old, x.Args[2])
+		side := takeSide(st, mark, q)
 		if had {
 			env.binds[id.Name] = saved
 		} else {
 			delete(env.binds, id.Name)
 		}
-		if name == "allT" {
-			return Val{Forall([]*Term{q}, body.T), boolT}
+		if env.assuming && !isTrue(side) {
+			st.assumeT(Forall([]*Term{q}, side))
+			side = True
 		}
-		return Val{Exists([]*Term{q}, body.T), boolT}
+		if name == "allT" {
+			return Val{Forall([]*Term{q}, Imp(side, body.T)), boolT}
+		}
+		return Val{Exists([]*Term{q}, And(side, body.T)), boolT}
 	case "mapcomp":
 		// mapcomp(x, T, expr): the total map x -> expr (definitional)
 		id, ok := x.Args[0].(*ast.Ident)
@@ -706,14 +742,16 @@ func (env *SpecEnv) evalCall(st, old *State, x *ast.CallExpr) Val {
 		q := env.freshQVar(id.Name, tm.SortOf(t))
 		saved, had := env.binds[id.Name]
 		env.binds[id.Name] = Val{q, t}
+		mark := len(st.assume)
 		body := env.eval(st, old, x.Args[2])
+		side := takeSide(st, mark, q)
 		if had {
 			env.binds[id.Name] = saved
 		} else {
 			delete(env.binds, id.Name)
 		}
 		arr := u.fresh("mapcomp", ArraySort(q.Sort, body.T.Sort))
-		st.assumeT(Forall([]*Term{q}, Eq(Select(arr, q), body.T), []*Term{Select(arr, q)}))
+		st.assumeT(Forall([]*Term{q}, Imp(side, Eq(Select(arr, q), body.T)), []*Term{Select(arr, q)}))
 		var mt types.Type
 		if body.Ty != nil {
 			m := types.NewMap(t, body.Ty)
@@ -753,7 +791,14 @@ func (env *SpecEnv) evalCall(st, old *State, x *ast.CallExpr) Val {
 			return Val{BoolLit(st.tags[s]), boolT}
 		}
 	case "int", "int64", "uint64", "int32", "uint32", "uint8", "byte", "uint", "uint16", "int16":
-		return Val{arg(0).T, types.Universe.Lookup(name).Type()}
+		v := arg(0)
+		if v.Ty == nil {
+			return Val{v.T, types.Universe.Lookup(name).Type()}
+		}
+		u.quiet++
+		r := c.conversion(st, v, types.Universe.Lookup(name).Type(), token.NoPos)
+		u.quiet--
+		return r
 	case "string":
 		v := arg(0)
 		if v.T.Sort == SStr {
@@ -923,7 +968,7 @@ func (env *SpecEnv) methodCall(st, old *State, sel *ast.SelectorExpr, x *ast.Cal
 }
 
 func (env *SpecEnv) expandPred(st, old *State, p *Pred, x *ast.CallExpr) Val {
-	sub := &SpecEnv{c: env.c, fs: env.fs, binds: map[string]Val{}, fnObj: env.fnObj, pkgPath: p.PkgPath, where: p.Where}
+	sub := &SpecEnv{c: env.c, fs: env.fs, binds: map[string]Val{}, fnObj: env.fnObj, pkgPath: p.PkgPath, where: p.Where, assuming: env.assuming}
 	// quantifier-bound variables of the caller stay visible only via args
 	i := 0
 	params := p.Header.Type.Params.List
@@ -1082,6 +1127,13 @@ func (c *ExecCtx) newEnv(binds map[string]Val, pos token.Pos) *SpecEnv {
 
 func (c *ExecCtx) specBool(st, old *State, cl SpecClause, pos token.Pos, binds map[string]Val) *Term {
 	env := c.newEnv(binds, pos)
+	return env.evalBool(st, old, cl.Expr, cl.Where)
+}
+
+// specBoolAssume: like specBool for formulas that will be assumed.
+func (c *ExecCtx) specBoolAssume(st, old *State, cl SpecClause, pos token.Pos, binds map[string]Val) *Term {
+	env := c.newEnv(binds, pos)
+	env.assuming = true
 	return env.evalBool(st, old, cl.Expr, cl.Where)
 }
 
@@ -1372,4 +1424,26 @@ func (c *ExecCtx) runBeforeCallAnchors(st *State, fn *types.Func, call *ast.Call
 			c.execGhostWith(st, g, call.Pos(), binds)
 		}
 	}
+}
+
+
+// takeSide removes the assumptions added since mark that mention the bound
+// variable q (definitional facts produced while evaluating under the binder)
+// and returns their conjunction, to be placed inside the quantifier.
+func takeSide(st *State, mark int, q *Term) *Term {
+	if len(st.assume) <= mark {
+		return True
+	}
+	var keep, side []*Term
+	for _, a := range st.assume[mark:] {
+		s := map[string]bool{}
+		collectSyms(a, s)
+		if s[q.Name] {
+			side = append(side, a)
+		} else {
+			keep = append(keep, a)
+		}
+	}
+	st.assume = append(st.assume[:mark:mark], keep...)
+	return And(side...)
 }
